@@ -2,7 +2,7 @@
 import re
 from .. import model, sweep
 from ..runner import Result
-from ..bridge import T, build, quiet, monitor, extract, mt_equal, all_nodes
+from ..bridge import T, build, quiet, monitor, extract, mt_equal, all_nodes, build_any
 from .c05 import assign_heads, head_choices
 
 from trees import transform
@@ -82,7 +82,7 @@ def check_bin(mtj, bare, marked, order=None):
                     'what': what or ('binarize: ' + kind)})
     arities = [len(nd[2]) for nd in model.mt_all(mt.root) if not isinstance(nd, int)]
     params = {'bare_bin_labels': True} if bare else {}
-    t = build(mt, child_order=order)
+    t = build_any(mt, order)
     try:
         if marked:
             t = transform.negra_mark_heads(t)
@@ -155,7 +155,7 @@ def check_col(mtj, order=None):
         out.append({'kind': kind, 'where': where, 'case': case,
                     'detail': '%s [input %s]' % (detail, model.mt_str(mt.root, mt.toks)),
                     'what': what or (where + ': ' + kind)})
-    t = build(mt, child_order=order)
+    t = build_any(mt, order)
     try:
         r = transform.collapse_unary_chains(t)
     except Exception as e:
@@ -291,7 +291,7 @@ def run_chunk(chunk):
                         j = mt.to_json()
                         for bare in (False, True):
                             idx += 1
-                            vs = check_bin(j, bare, True, None if idx % 2 else 'rev')
+                            vs = check_bin(j, bare, True, (None, 'rev', 'export')[idx % 3])
                             res.evals += 1
                             res.nontrivial += 1 if big else 0
                             res.outcome((mt.key(), bare, len(vs)))
@@ -310,7 +310,7 @@ def run_chunk(chunk):
             for sh, k in sweep.iter_shapes(chunk):
               for lab in ('path', 'NP'):
                 mt = model.simple_mt(sh, sid=4, labels=lab, pos=(['NP'] * len(model.leaves(sh)) if lab == 'NP' else None))
-                for order in (None, 'rev'):
+                for order in (None, 'rev', 'export') + (('brackets',) if model.is_continuous(sh) else ()):
                     vs = check_col(mt.to_json(), order)
                     res.evals += 1
                     res.nontrivial += 1 if k > 0 or len(sh) == 1 else 0
